@@ -671,9 +671,13 @@ def gen_case(r, tier):
                 ops.append({"op": "interrupt", "j": r.randint(0, 25), "n": r.randint(1, 4)})
         if r.random() < 0.15:
             ops.append({"op": "interrupt", "j": r.randint(0, 25), "n": r.randint(1, 4)})
-        if r.random() < 0.15:
-            ops = [{"op": "sample", "n": r.randint(1, 6)}, {"op": "snapshot"}, {"op": "sample", "n": r.randint(2, 8)},
-                   {"op": "rollback"}] + ops
+        if r.random() < 0.2:
+            pre = [{"op": "sample", "n": r.randint(1, 6)}, {"op": "snapshot"}, {"op": "sample", "n": r.randint(2, 8)},
+                   {"op": "rollback"}]
+            if r.random() < 0.5:
+                # the SAME saved state is restored a second time after the chain has moved on again
+                pre += [{"op": "sample", "n": r.randint(2, 8)}, {"op": "rollback"}]
+            ops = pre + ops
         if not any(o["op"] in ("sample", "warmup") for o in ops) or ops[-1]["op"] in ("reload", "retarget", "retarget_other", "rollback", "interrupt"):
             ops.append({"op": "sample", "n": r.randint(1, 8)})
     else:
